@@ -42,7 +42,7 @@ CHECKS["C16"]=dict(engine="node", design="5/C16", note="Trusted: the edit catalo
 CHECKS["C18"]=dict(engine="k8s", design="5/C18", note="Trusted: client-go's fake clientset as API-server stub (object tracker semantics); reactors inject errors and the pod list order.",
   text="The real kubernetes ReplicasManager/shardManager run against a fake clientset: complete fault-free sweeps of a small (old,new,templates,flag) grid inside runs plus seeded cases with injected API errors (get/update/delete per ordinal), a concurrent writer, drawn pod list orders, pods without IP, extra pods, rolling-update StatefulSets; oracles on objects left in the stub (replicas, exactly the removed ordinals' claims, never a remaining shard's claim under any error, no write when unchanged) and on the Shard list (ordinal order, address via the URL actually called, readiness).")
 
-_disco_note="Trusted: the harness replicates cmd/kvass/coordinator.go's wiring and owns the SD manager, the forwarder goroutine and the probe transport (C17 additionally runs, every 37th run, the real coordinator command body in the cmdworld engine); scheduling points are the Lock() calls of pkg/discovery and pkg/explore (inserted by the overlay), transport calls and timers; interleavings inside a critical section are not explored."
+_disco_note="Trusted: the harness replicates cmd/kvass/coordinator.go's wiring and owns the SD manager, the forwarder goroutine and the probe transport (C17 and C20 additionally run, every 37th run, the real coordinator command body in the cmdworld engine); scheduling points are the Lock() calls of pkg/discovery and pkg/explore (inserted by the overlay), transport calls and timers; interleavings inside a critical section are not explored."
 CHECKS["C17"]=dict(engine="disco", design="5/C17", note=_disco_note,
   text="Seeded search over interleavings of asynchronous discovery updates, reloads and readers on the real TargetsDiscovery/Explore/ConfigManager chain, with every goroutine parked before each Lock() and released in PRNG order; the recorded history (event sequence stamps) is checked for linearizability against a sequential model with porcupine (Illegal = violation, Unknown = inconclusive), plus snapshot immutability, WaitInit on the fake clock, deleted jobs staying deleted and explorer tracking at quiescence.")
 CHECKS["C20"]=dict(engine="disco", design="5/C20", note=_disco_note,
@@ -98,7 +98,7 @@ def main():
             {"name": "disco", "path": "sim/disco", "serves_properties": [k for k, v in CHECKS.items() if v["engine"] == "disco"], "kind_free_text": "real discovery + explorer + config callbacks under a yield-point scheduler (parks before every Lock()), sim-owned SD producer, forwarder and probe transport"},
             {"name": "world", "path": "sim/world", "serves_properties": [k for k, v in CHECKS.items() if v["engine"] == "world"], "kind_free_text": "closed loop: real coordinator + discovery + explorer + k8s managers + N real sidecars, stubs for Prometheus / API server / targets, discrete-event loop on the synctest fake clock"},
             {"name": "k8s", "path": "sim/k8seng", "serves_properties": [k for k, v in CHECKS.items() if v["engine"] == "k8s"], "kind_free_text": "real kubernetes shard managers against a client-go fake clientset with error reactors"},
-            {"name": "cmdworld", "path": "sim/cmdworld", "serves_properties": ["C03", "C06", "C17"], "kind_free_text": "closed loop of the real command bodies: kvass coordinator (real Prometheus discovery manager over a simulated SD plug-in, static shard list) + one kvass sidecar per shard; end-to-end oracles only; runs as every 7th run of C03/C06 and every 37th of C17"},
+            {"name": "cmdworld", "path": "sim/cmdworld", "serves_properties": ["C03", "C06", "C17", "C20"], "kind_free_text": "closed loop of the real command bodies: kvass coordinator (real Prometheus discovery manager over a simulated SD plug-in, static shard list) + one kvass sidecar per shard; end-to-end oracles only; runs as every 7th run of C03/C06 and every 37th of C17/C20"},
             {"name": "node", "path": "sim/node", "serves_properties": [k for k, v in CHECKS.items() if v["engine"] == "node"], "kind_free_text": "one real sidecar under drawn operation and fault sequences against a reference model; real net/http over net.Pipe for C13/C12"},
         ],
         "checks": checks,
